@@ -130,6 +130,34 @@ func Run(file string, seed int64, conc int) (*Report, error) {
 			rep.Samples = append(rep.Samples, v)
 		}
 	}
+	// the configuration in force when an event is formatted decides: one formatter, its list of signed types changed
+	// between events
+	{
+		rep.Runs++
+		srcu, _ := url.Parse("https://example.com/seq")
+		ffs := &cloudevents.FormatterFilter{Source: srcu, Format: cloudevents.FormatJSON,
+			Signer: func(_ context.Context, b []byte) (string, error) { return "sig", nil }}
+		steps := []struct {
+			list []string
+			typ  string
+			want bool
+		}{{[]string{"audit"}, "audit", true}, {[]string{"audit"}, "system", false}, {[]string{"system"}, "system", true}, {[]string{"system"}, "audit", false},
+			{nil, "audit", false}, {[]string{"audit", "system"}, "system", true}}
+		for i, st := range steps {
+			ffs.SignEventTypes = st.list
+			e := &eventlogger.Event{Type: eventlogger.EventType(st.typ), CreatedAt: time.Now(), Payload: "p", Formatted: map[string][]byte{}}
+			if _, err := ffs.Process(context.Background(), e); err != nil {
+				rep.mm(Mismatch{What: "Process in a sequence of events with a changing SignEventTypes list", Vector: i, Expected: "ok", Observed: err.Error()})
+				continue
+			}
+			b, _ := e.Format(string(cloudevents.FormatJSON))
+			var ce cloudevents.Event
+			json.Unmarshal(b, &ce)
+			if signed := ce.Serialized != "" && ce.SerializedHmac != ""; signed != st.want {
+				rep.mm(Mismatch{What: "signature present iff the event's type is in the list in force when it is formatted", Vector: fmt.Sprintf("step %d: list %v, type %s", i, st.list, st.typ), Expected: st.want, Observed: signed})
+			}
+		}
+	}
 	// fresh ids stay unique when events are formatted concurrently
 	rep.Runs++
 	var mu sync.Mutex
